@@ -2,6 +2,7 @@ import Utcp.Lemmas.Shrinks
 import Utcp.Lemmas.Keeps
 import Utcp.Handshake
 import Utcp.Props.C03
+import Utcp.Lemmas.RecvAdds
 /-!
 # C09 — arbitrary datagrams never crash, corrupt memory or hang an endpoint
 
@@ -106,163 +107,21 @@ theorem isFreeNode_recvOK (ev : Event) (h : isFreeNode ev) : RecvOK ev := by
   | recv bs => simp [isFreeNode] at h
   | _ => intro bs hb; cases hb
 
-theorem noteClose_adds (P : Event → Prop) (c : Conn) (b : Bunch) : Adds P c (c.noteClose b) := by
-  apply Adds.of_log_eq
-  unfold Conn.noteClose
-  split
-  · rfl
-  · dsimp only
-    have hc : (if (b.chIndex == 0) = true then c.markClose crControlChannelClose else c).log = c.log := by
-      split
-      · exact markClose_log _ _
-      · rfl
-    generalize (if (b.chIndex == 0) = true then c.markClose crControlChannelClose else c) = c' at *
-    split
-    · exact hc
-    · exact hc
+theorem recvOK_pred : RecvPred RecvOK :=
+  ⟨fun k bs hb => (by cases hb), fun k bs hb => (by cases hb), fun k bs hb => (by cases hb), fun g h1 h2 bs hb => (by cases hb; exact ⟨h1, h2⟩)⟩
 
-theorem foldl_noteClose_adds (P : Event → Prop) (g : List Bunch) : ∀ c : Conn, Adds P c (g.foldl Conn.noteClose c) := by
-  induction g with
-  | nil => intro c; exact Adds.refl _ _
-  | cons b rest ih => intro c; exact (noteClose_adds P c b).trans (ih _)
-
-theorem mergePartial_adds (c : Conn) (x : Channel) (b : Bunch) : Adds isFreeNode c (mergePartial c x b).1 := by
-  unfold mergePartial mergeInitial mergeNext
-  split
-  · split
-    · exact Adds.refl _ _
-    · split
-      · exact Adds.refl _ _
-      · exact freeNodes_adds _ _
-  · split
-    · exact Adds.refl _ _
-    · split
-      · exact Adds.refl _ _
-      · split
-        · exact Adds.refl _ _
-        · exact freeNodes_adds _ _
-
-theorem available_nonempty (c : Conn) (x : Channel) (b : Bunch) (h : (mergePartial c x b).2.2.1 = .available) :
-    1 ≤ (mergePartial c x b).2.1.inPartial.length := by
-  obtain ⟨_, _, h3, _⟩ := C03.available_iff c x b h
-  rw [h3]; simp
-
-/-- `ReceivedNextBunch`: at most one callback, with `1 ≤ count ≤ 256` (an over-long group is dropped instead) -/
-theorem receivedNextBunch_adds (c : Conn) (b : Bunch) : Adds RecvOK c (c.receivedNextBunch b).1 := by
-  unfold Conn.receivedNextBunch
-  have hfree : ∀ (c : Conn) k, Adds RecvOK c (c.freeNodes k) := fun c k => (freeNodes_adds c k).mono isFreeNode_recvOK
-  have hfn : RecvOK (.free .node) := by intro bs hb; cases hb
-  split
-  · exact Adds.emit _ _ hfn
-  · rename_i x hx
-    dsimp only
-    split
-    · -- partial
-      have hm := (mergePartial_adds c (if b.bReliable = true then { x with inReliable := b.chSeq } else x) b).mono isFreeNode_recvOK
-      generalize hmp : mergePartial c (if b.bReliable = true then { x with inReliable := b.chSeq } else x) b = r at hm
-      obtain ⟨c1, x1, res, skip⟩ := r
-      simp only at hm ⊢
-      have h1 : Adds RecvOK c (c1.setChan b.chIndex x1) := hm.trans (setChan_adds _ _ _ _)
-      cases res with
-      | succeed => exact h1
-      | fatal => exact h1.emit_trans _ hfn
-      | failed => exact h1.emit_trans _ hfn
-      | available =>
-        simp only
-        split
-        · exact (h1.trans (hfree _ _)).trans ((setChan_adds _ _ _ _).trans (markClose_adds _ _ _))
-        · rename_i hlen
-          have hpos : 1 ≤ x1.inPartial.length := by
-            -- an available group contains at least the fragment just merged
-            have := Utcp.Props.C09.available_nonempty c (if b.bReliable = true then { x with inReliable := b.chSeq } else x) b
-            rw [hmp] at this
-            exact this rfl
-          have hrecv : RecvOK (.recv x1.inPartial) := by
-            intro bs hb; cases hb
-            have : maxGroup = 256 := by decide
-            rw [this] at hlen
-            exact ⟨hpos, by omega⟩
-          have h2 := (h1.trans (foldl_noteClose_adds RecvOK x1.inPartial _)).emit_trans _ hrecv
-          have h3 := h2.trans (hfree _ x1.inPartial.length)
-          split
-          · exact h3
-          · exact h3.trans (setChan_adds _ _ _ _)
-    · -- single bunch
-      have hrecv : RecvOK (.recv [b]) := by intro bs hb; cases hb; simp
-      exact (((setChan_adds RecvOK c _ _).trans (noteClose_adds _ _ _)).emit_trans _ hrecv).emit_trans _ hfn
-
-theorem dispatchWaiting_adds (fuel : Nat) : ∀ (c : Conn) (ch : Nat), Adds RecvOK c (Conn.dispatchWaiting fuel c ch) := by
-  induction fuel with
-  | zero => intro c ch; exact Adds.refl _ _
-  | succ f ih =>
-    intro c ch
-    unfold Conn.dispatchWaiting
-    split
-    · exact Adds.refl _ _
-    · split
-      · exact Adds.refl _ _
-      · split
-        · exact Adds.refl _ _
-        · dsimp only
-          exact ((setChan_adds _ c ch _).trans (receivedNextBunch_adds _ _)).trans (ih _ _)
-
-theorem createChan_adds (c : Conn) (ch : Nat) : Adds RecvOK c (c.createChan ch) := by
-  unfold Conn.createChan
-  have ha : ∀ k, RecvOK (.alloc k) := fun k bs hb => by cases hb
-  have hr : ∀ k, RecvOK (.realloc k) := fun k bs hb => by cases hb
-  dsimp only
-  refine Adds.trans ?_ (setChan_adds _ _ _ _)
-  split
-  · exact Adds.emit _ _ (ha _)
-  · split
-    · exact (Adds.emit c _ (ha .chan)).trans (Adds.emit _ _ (ha _))
-    · exact (Adds.emit c _ (ha .chan)).trans (Adds.emit _ _ (hr _))
-
-theorem getOrCreateChan_adds (c : Conn) (b : Bunch) (inc : Bool) : Adds RecvOK c (c.getOrCreateChan b inc).1 := by
-  unfold Conn.getOrCreateChan
-  split
-  · exact Adds.refl _ _
-  · split
-    · exact createChan_adds c _
-    · exact Adds.refl _ _
-
-theorem processBunch_adds (c : Conn) (x : Channel) (b : Bunch) : Adds RecvOK c (c.processBunch x b).1 := by
-  have hf : ∀ k, RecvOK (.free k) := fun k bs hb => by cases hb
-  unfold Conn.processBunch
-  split
-  · exact Adds.emit _ _ (hf _)
-  · split
-    · split
-      · exact setChan_adds _ _ _ _
-      · exact Adds.emit _ _ (hf _)
-    · exact receivedNextBunch_adds _ _
-
-theorem dispatchAll_adds (c : Conn) (ch : Nat) : Adds RecvOK c (c.dispatchAll ch) := dispatchWaiting_adds _ _ _
+/-- `ReceivedNextBunch`: at most one callback, with `1 ≤ count ≤ 256` (an over-long group is dropped instead).
+(The chain of lemmas behind this — one per function of the receive path — is in `Lemmas/RecvAdds.lean`, stated for any
+event predicate that holds of allocator events and of callbacks with a valid count.) -/
+theorem receivedNextBunch_adds (c : Conn) (b : Bunch) : Adds RecvOK c (c.receivedNextBunch b).1 :=
+  _root_.Utcp.receivedNextBunch_adds recvOK_pred c b
 
 /-- `ReceivedRawBunch` on any remaining bits -/
-theorem receivedRawBunch_adds (c : Conn) (bits : Bits) : Adds RecvOK c (c.receivedRawBunch bits).1 := by
-  have ha : ∀ k, RecvOK (.alloc k) := fun k bs hb => by cases hb
-  have hf : ∀ k, RecvOK (.free k) := fun k bs hb => by cases hb
-  unfold Conn.receivedRawBunch
-  dsimp only
-  have h0 : Adds RecvOK c (c.emit (.alloc .node)) := Adds.emit _ _ (ha _)
-  split
-  · exact (h0.trans (markClose_adds _ _ _)).emit_trans _ (hf _)
-  · split
-    · exact (h0.trans (markClose_adds _ _ _)).emit_trans _ (hf _)
-    · split
-      · exact (h0.trans (getOrCreateChan_adds _ _ _)).emit_trans _ (hf _)
-      · exact ((h0.trans (getOrCreateChan_adds _ _ _)).trans (processBunch_adds _ _ _)).trans (dispatchAll_adds _ _)
+theorem receivedRawBunch_adds (c : Conn) (bits : Bits) : Adds RecvOK c (c.receivedRawBunch bits).1 :=
+  _root_.Utcp.receivedRawBunch_adds recvOK_pred c bits
 
-theorem bunchLoop_adds (fuel : Nat) : ∀ (c : Conn) (bits : Bits) (skip : Bool), Adds RecvOK c (Conn.bunchLoop fuel c bits skip).1 := by
-  induction fuel with
-  | zero => intro c bits skip; exact Adds.refl _ _
-  | succ f ih =>
-    intro c bits skip
-    unfold Conn.bunchLoop
-    split
-    · exact Adds.refl _ _
-    · exact (receivedRawBunch_adds c bits).trans (ih _ _ _)
+theorem bunchLoop_adds (fuel : Nat) (c : Conn) (bits : Bits) (skip : Bool) : Adds RecvOK c (Conn.bunchLoop fuel c bits skip).1 :=
+  _root_.Utcp.bunchLoop_adds recvOK_pred fuel c bits skip
 
 theorem handleNotification_adds (e : Env) (c : Conn) (v : Int × Bool) : Adds RecvOK c (c.handleNotification e v) := by
   have hs : ∀ p a, RecvOK (.status p a) := fun p a bs hb => by cases hb
